@@ -23,6 +23,13 @@ THEOREMS = [
     "GeoVerif.Ws.wf_after_history",
     "GeoVerif.Ws.reopen_identity",
     "GeoVerif.Ws.run_nodup",
+    "GeoVerif.Ws.parents_count",
+    "GeoVerif.Ws.parentsOf_length",
+    "GeoVerif.Ws.wfCheck_fileOf",
+    "GeoVerif.Ws.update_frame_back",
+    "GeoVerif.Ws.PGok_step",
+    "GeoVerif.Ws.PGok_run",
+    "GeoVerif.Ws.wf_run",
 ]
 RULE = (
     "histories as for C01 with more removals (through the workspace and through the parent), re-parenting, copies and "
@@ -40,11 +47,14 @@ LEVEL_TEXT = (
     "resolves to the stored node of that identifier and kind (links_stored), every non-root entity is linked from a stored parent "
     "(node_has_parent), every stored node is reachable from Root (all_reachable). The same predicate, executable as wfCheck, is "
     "evaluated by Lean on the raw h5py snapshot of every real file written; hard-link identity (Type, child entries) is checked by "
-    "the independent reader through HDF5 object addresses. Partial: uniqueness of the parent and the property-group clause are "
-    "checked on real files by wfCheck, not proved for the model."
+    "the independent reader through HDF5 object addresses. The root has no parent and every other node exactly one "
+    "(parents_count: a counting argument over the identifiers), property groups list only children of their object, and this "
+    "clause is an invariant of every operation (PGok_step, by the backward frame lemmas of C09); together: wfCheck (fileOf (run t "
+    "ops)) = true for every history from a valid tree (wf_run) - the complete executable check, the one that judges the real files, "
+    "accepts every file image the model can reach."
 )
 LEVEL_NOTE = "Trusted: Lean kernel, the independent raw reader, h5py/HDF5."
-TECHNIQUE = "Lean 4 proof of structural validity of the flat file image + Lean-evaluated wfCheck on raw snapshots of real files"
+TECHNIQUE = "Lean 4 proof that the executable validity check accepts the file image after every history (counting argument for the unique parent, invariant by induction over operations for the property-group clause) + the same check evaluated by Lean on raw snapshots of real files"
 WANT = {"C02"}
 WEIGHTS = {"remove_ws": 4, "remove_parent": 4, "move": 4, "copy": 4, "pg_add": 4, "reopen": 3}
 
